@@ -1,16 +1,57 @@
 import FGVerif.Driver.Shared
-/-! driver operations for C08 (base version) -/
+import FGVerif.Model.C08
+/-! driver operations for C08 -/
 namespace C08
 open SExp Perm
 
-/-- `(permute <mapper> (pat …) (str …) [<impl: ((a …) …)>])` -/
+def isRaised : SExp → Bool
+  | .list (.atom "raised" :: _) => true
+  | _ => false
+
+/-- `(permute <mapper> (pat …) (str …) [<impl: (((a …) …) (pat after …) (str after …))>])`
+      model output `(((a …) …) (pat …) (str …))`: the result list *in order* and the caller's two
+      lists after the call (unchanged by construction in the model);
+      `spec_impl` = `specCheckCall` on the implementation's triple; extra: number of dummy slots.
+    `(ismapping <mapper> <ps> <ss> [<impl bool>])`
+      model output `Mapper.isMapping`, `spec_*` = agreement with `isMappingSpec`. -/
 def handle : List SExp → Option SExp
-  | .atom "permute" :: m :: pat :: str :: _rest => do
+  | .atom "permute" :: m :: pat :: str :: rest => do
       let m ← asMapper m
       let pat ← asList asStr pat
       let str ← asList asStr str
       let model := m.permute pat str
-      pure (.list [.atom "ok", ofList (ofList ofInt) model, ofBool true, none'])
+      let enc := fun (o : List (List Int)) (p s : List String) =>
+        SExp.list [ofList (ofList ofInt) o, ofList ofStr p, ofList ofStr s]
+      let specModel := specCheckCall m pat str model pat str
+      let specImpl ← match rest with
+        | [] => pure none'
+        | [impl] =>
+            if isRaised impl then pure (ofBool false)
+            else match impl with
+              | .list [o, p, s] => do
+                  let o ← asList (asList asInt) o
+                  let p ← asList asStr p
+                  let s ← asList asStr s
+                  pure (ofBool (specCheckCall m pat str o p s))
+              | _ => none
+        | _ => none
+      pure (.list [.atom "ok", enc model pat str, ofBool specModel, specImpl,
+        ofNat (dummies m pat str).length])
+  | .atom "ismapping" :: m :: ps :: ss :: rest => do
+      let m ← asMapper m
+      let ps ← asStr ps
+      let ss ← asStr ss
+      let model := m.isMapping ps ss
+      let spec := isMappingSpec m ps ss
+      let specImpl ← match rest with
+        | [] => pure none'
+        | [impl] =>
+            if isRaised impl then pure (ofBool false)
+            else do
+              let b ← asBool impl
+              pure (ofBool (b == spec))
+        | _ => none
+      pure (.list [.atom "ok", ofBool model, ofBool (model == spec), specImpl])
   | _ => none
 
 end C08
